@@ -94,7 +94,7 @@ def pool(tier):
     P["dot_l3"] = dot(as_vector([f1, f2, g3]), as_vector([f1, f2, g3]))
     P["l2_0"], P["l3_0"] = as_vector([f1, f2])[i] * as_vector([f1, f2])[i], as_vector([f1, f2, g3])[j] * as_vector([f1, f2, g3])[j]
     if tier == "thorough":
-        for n, (p, q) in enumerate(itertools.combinations(["f1", "f2", "g3", "c9", "c10", "x9_0", "sin_f1", "A01", "A10"], 2)):
+        for n, (p, q) in enumerate(itertools.combinations(["f1", "g3", "c9", "c10", "x9_0", "A01"], 2)):
             P[f"sum{n}"] = P[p] + P[q]
             P[f"prod{n}"] = P[p] * P[q]
     return P
@@ -179,7 +179,7 @@ def run(spec):
     }
     res = []
     for name, (nv, neg) in AX.items():
-        st, wit = T.check(name, nv, neg, extra_decls=extra)
+        st, wit = T.check(name, nv, neg, extra_decls=extra, timeout=60 if spec["tier"] != "thorough" else 900)
         if st == "proved":
             res.append(outcome(name, "proved", stage="tables", sample=f"{name}: forall indices over {n} operands"))
         elif st == "sat":
@@ -221,7 +221,7 @@ def run(spec):
 def main():
     tier = harness.tier_from_argv()
     t0 = time.time()
-    results = harness.run_pool("checks.C29", "run", [dict(name="tables", tier=tier)], workers=1)
+    results = harness.run_pool("checks.C29", "run", [dict(name="tables", tier=tier, task_timeout=600 if tier != "thorough" else 7200)], workers=1)
     calls = results[0].get("table_calls", 0)
     names = results[0].get("carrier", [])
     rc = harness.finish(
